@@ -9,11 +9,11 @@ BUILD = os.path.join(VERIF, 'build')
 COQ = os.path.join(VERIF, 'coq')
 
 FLAVORS = {
-    'plain': ['-O1'],
+    'plain': ['-O1', '-pthread'],
     # memory errors only (C13/C16): address + bounds; signed overflow and float casts are C19's subject (flavor 'ubsan')
     'asan': ['-O1', '-g', '-fsanitize=address,bounds', '-fno-sanitize-recover=all', '-D_GLIBCXX_ASSERTIONS', '-fno-omit-frame-pointer'],
     'ubsan': ['-O1', '-g', '-fsanitize=undefined', '-fno-sanitize-recover=all'],
-    'tsan': ['-O1', '-g', '-fsanitize=thread'],
+    'tsan': ['-O1', '-g', '-fsanitize=thread', '-pthread'],
     'O0': ['-O0'],
     'O3': ['-O3'],
 }
@@ -55,7 +55,7 @@ def build_driver(flavor='plain', repo=None, main='driver.cpp', extra_flags=(), l
         if r.returncode != 0:
             shutil.rmtree(outdir, ignore_errors=True)
             raise RuntimeError('compile failed: %s\n%s' % (src, r.stdout[-3000:]))
-    link_flags = [f for f in flags if f.startswith('-fsanitize') or f == '-g'] + list(libs)
+    link_flags = [f for f in flags if f.startswith('-fsanitize') or f in ('-g', '-pthread')] + list(libs)
     r = sh(['g++'] + link_flags + ['-o', exe + '.tmp'] + [o for _, o, _ in res] + list(libs))
     if r.returncode != 0:
         shutil.rmtree(outdir, ignore_errors=True)
@@ -120,3 +120,27 @@ if __name__ == '__main__':
     print('coq', ok, time.time() - t)
     print(build_model())
     print(build_driver('plain'))
+
+
+CMAKE_CONFIGS = [('Debug', False), ('Debug', True), ('RelWithDebInfo', False), ('RelWithDebInfo', True), ('Release', False), ('Release', True)]
+
+def build_cmake_driver(build_type, shared, scratch, repo=None):
+    """Configure and build the library with the repository's own CMakeLists.txt in a scratch directory (outside /repo
+    and /verif), then link harness/driver.cpp against it.  Returns (driver path, env)."""
+    repo = repo or REPO
+    tag = '%s-%s' % (build_type, 'shared' if shared else 'static')
+    bdir = os.path.join(scratch, tag)
+    os.makedirs(bdir, exist_ok=True)
+    r = sh(['cmake', '-S', repo, '-B', bdir, '-G', 'Ninja', '-DCMAKE_BUILD_TYPE=' + build_type, '-DBUILD_SHARED_LIBS=' + ('ON' if shared else 'OFF'),
+            '-DBUILD_EXAMPLE=OFF', '-DBUILD_TESTS=OFF', '-DBUILD_DOC=OFF', '-DCMAKE_CXX_FLAGS=-w'])
+    if r.returncode != 0: raise RuntimeError('cmake configure failed (%s)\n%s' % (tag, r.stdout[-2000:]))
+    r = sh(['cmake', '--build', bdir, '--target', 'ezc3d'])
+    if r.returncode != 0: raise RuntimeError('cmake build failed (%s)\n%s' % (tag, r.stdout[-2000:]))
+    libs = [f for f in os.listdir(bdir) if f.startswith('libezc3d')]
+    if not libs: raise RuntimeError('no library produced (%s): %s' % (tag, os.listdir(bdir)))
+    lib = os.path.join(bdir, sorted(libs)[0])
+    exe = os.path.join(bdir, 'driver')
+    r = sh(['g++', '-std=c++11', '-w', '-O1', '-pthread', '-I' + os.path.join(repo, 'include'), os.path.join(VERIF, 'harness', 'driver.cpp'), lib, '-o', exe])
+    if r.returncode != 0: raise RuntimeError('driver link failed (%s)\n%s' % (tag, r.stdout[-2000:]))
+    env = dict(os.environ); env['LD_LIBRARY_PATH'] = bdir + ':' + env.get('LD_LIBRARY_PATH', '')
+    return tag, exe, env
